@@ -932,7 +932,8 @@ Section XStep.
       (tx_same (eg_tx gx) (ep_sock ex) ev gt' out \/
        tx_new (ep_cx ex) (eg_tx gx) (ep_sock ex) ev gt' s' out) /\
       (forall p, tx_emitted out = Some p -> tx_pkt_ok gt' p) /\
-      (eg_J gx = None -> forall j, eg_J gx' = Some j -> eg_K gy = Some j).
+      (eg_J gx = None -> forall j, eg_J gx' = Some j -> eg_K gy = Some j) /\
+      (ep_closed ex = true -> ep_written ex' = ep_written ex).
   Proof.
     intros HEPx HEPy HDxy HDyx Hcout Hcin Hrun Hstep Hxf Hseg Hrecv gr' Hresync Hancsync.
     pose proof HEPx as (Hinv & Hcx & Hg & Htxl & Hrxl & Hjl & Hkl).
@@ -1000,7 +1001,21 @@ Section XStep.
       destruct Huna as [Hle | (Hs & Hlt)].
       - exfalso. rewrite (una_syn gt Hjl) in Hle. pose proof (una_pos gt' s' Hinv' Ep). lia.
       - destruct (Hadv Hlt Hs) as (irs & HK & Hirs & _). rewrite <- Hirs. exact HK. }
-    split; [|split; [|split; [|split; [exact Hinv'|split; [exact Hrel|split; [exact Hpk|exact HJnew]]]]]].
+    assert (Hfrozen : ep_closed ex = true -> ep_written ex' = ep_written ex).
+    { intros Hcl. rewrite X4. unfold log_written. destruct ev; try reflexivity. destruct out; try reflexivity.
+      cbn [tcp_step] in Hstep.
+      destruct (tcp_send_slice s data) as [(s1, n1)|e|] eqn:Es; inversion Hstep; subst s1 n1 tags; clear Hstep.
+      destruct (send_slice_tailf _ _ _ _ Es) as (_ & Hst).
+      assert (Hms : tcp_may_send s = true).
+      { unfold tcp_send_slice in Es. destruct (tcp_may_send s); [reflexivity | discriminate]. }
+      destruct Htxl as [(T1 & T2) | (Dc & _)].
+      - destruct Hrel as [(_ & Hst' & _ & Hfr & _) | (_ & [(Hc' & _) | (_ & Hf)])].
+        + fold gt in T2. rewrite Hcl in T2. specialize (Hfr T2). rewrite Hst' in Hfr. unfold log_written in Hfr.
+          rewrite <- (app_nil_r (g_stream gt)) in Hfr at 2. apply app_inv_head in Hfr. rewrite Hfr. apply app_nil_r.
+        + exfalso. unfold tcp_may_send in Hms. rewrite <- Hst, Hc' in Hms. discriminate.
+        + contradiction.
+      - exfalso. fold s in Dc. unfold tcp_may_send in Hms. rewrite Dc in Hms. discriminate. }
+    split; [|split; [|split; [|split; [exact Hinv'|split; [exact Hrel|split; [exact Hpk|split; [exact HJnew | exact Hfrozen]]]]]]].
     - (* EP x *)
       unfold EP. cbn [eg_tx eg_rx eg_J eg_K eg_R next_g]. rewrite X1, X2.
       split; [exact Hinv'|]. split; [exact Hcx|]. split; [exact Hg'|]. split; [exact Htxl'|].
